@@ -294,10 +294,15 @@ def policy_script(q, i, seed, mode):
     cls = "valid"
     if mode == "host" and h % 19 == 0:
         cls = ["long", "odd", "trunc"][h % 3]
+    chan = {"k": "chan", "cls": cls, "name": q["name"], "port": q["port"]}
+    if mode == "host" and cls == "valid" and h % 4 == 1:
+        # alternate resource names ride along (another address that listens on the requested port, an allowed entry of the
+        # list, the other address family): only the requested name may ever be connected to
+        chan = dict(chan, cls="alt", alts=[["H2"], ["H1"], ["H6"]][: 1 + h % 3])
     steps = [{"k": "hs", "cls": "valid", "caps": caps, "major": 1, "minor": 0},
              {"k": "create", "cls": "valid", "cookie": "good" if tokenAuth else "none"},
              {"k": "auth", "cls": "valid"},
-             {"k": "chan", "cls": cls, "name": q["name"], "port": q["port"]},
+             chan,
              {"k": "data", "cls": "valid", "n": 8}]
     transport = ["ws", "legacy"][h % 2]
     own_entry = mode == "host" and any("PH" in e for e in q["hosts"]) and q["name"] in (["H127", "7"], ["H127", "8"])
